@@ -139,6 +139,17 @@ static void note_file(int fd, const char *path, int synced_now) {
     if (synced_now) inodes[s].synced = st.st_size;
 }
 
+// a freshly created file: inode numbers are reused, so forget whatever an earlier file left behind
+static void note_new(int fd, const char *path) {
+    struct stat st;
+    if (fd < 0 || fstat(fd, &st) != 0 || !S_ISREG(st.st_mode)) return;
+    int s = slot_for(st.st_dev, st.st_ino, 1);
+    if (s < 0) return;
+    inodes[s].synced = 0;
+    strncpy(inodes[s].path, path, sizeof(inodes[s].path) - 1);
+    inodes[s].path[sizeof(inodes[s].path) - 1] = 0;
+}
+
 static void logline(const char *fmt, ...) {
     if (logfd < 0) return;
     char buf[2048];
@@ -348,7 +359,7 @@ int open(const char *path, int flags, ...) {
     if (cg < 0) { pthread_mutex_unlock(&mu); return -1; }
     pthread_mutex_unlock(&mu);
     int r = real_open(path, flags, mode);
-    if (cg == 1) done("creat", cp, NULL, 0, r);
+    if (cg == 1) { pthread_mutex_lock(&mu); note_new(r, cp); pthread_mutex_unlock(&mu); done("creat", cp, NULL, 0, r); }
     return r;
 }
 int open64(const char *path, int flags, ...) {
@@ -360,7 +371,7 @@ int open64(const char *path, int flags, ...) {
     if (cg < 0) { pthread_mutex_unlock(&mu); return -1; }
     pthread_mutex_unlock(&mu);
     int r = real_open64(path, flags, mode);
-    if (cg == 1) done("creat", cp, NULL, 0, r);
+    if (cg == 1) { pthread_mutex_lock(&mu); note_new(r, cp); pthread_mutex_unlock(&mu); done("creat", cp, NULL, 0, r); }
     return r;
 }
 int openat(int dirfd, const char *path, int flags, ...) {
@@ -372,7 +383,7 @@ int openat(int dirfd, const char *path, int flags, ...) {
     if (cg < 0) { pthread_mutex_unlock(&mu); return -1; }
     pthread_mutex_unlock(&mu);
     int r = real_openat(dirfd, path, flags, mode);
-    if (cg == 1) done("creat", cp, NULL, 0, r);
+    if (cg == 1) { pthread_mutex_lock(&mu); note_new(r, cp); pthread_mutex_unlock(&mu); done("creat", cp, NULL, 0, r); }
     return r;
 }
 static int trunc_common(int fd, off_t len, int (*fn)(int, off_t)) {
